@@ -19,8 +19,23 @@ def run(ctx):
         "max_nodes": 6 + ch.draw(20, "p-maxnodes"),
     }
     ctx.profile = prof
+    adopt = None
+    if ch.coin(1, 4, "adopt-builder-product"):
+        # the shared graph starts as a builder product (containers, non-local and order links, metadata)
+        from ..engines.b_builders import BuilderSim, Discard
+        try:
+            bs = BuilderSim(ctx, features={"cond": True, "loop": True, "cfg": True, "calls": True, "poly": False, "meta": True,
+                                            "insert": ch.coin(1, 3, "f-insert")}, max_steps=6 + ch.draw(20, "max-steps"))
+            bs.run()
+            adopt = bs.hugr
+            prof["max_nodes"] = len(adopt) + 8
+            prof["adopted"] = bs.root_kind
+            ctx.probe("adopted_builder_product")
+        except Discard as d:
+            ctx.discard = str(d)
+            return
     sim = GraphSim(ctx, in_range=prof["in_range"], allow_delete=prof["delete"], allow_insert=prof["insert"],
-                   use_meta=prof["meta"], max_nodes=prof["max_nodes"])
+                   use_meta=prof["meta"], max_nodes=prof["max_nodes"], adopt_hugr=adopt)
     cap = 120 if ctx.cfg.get("tier") == "thorough" else 60
     nsteps = 3 + ch.draw(cap, "nsteps")
     actors = list(range(sim.n_clients)) + [g.name for g in sim.graphs[1:]]
